@@ -1434,22 +1434,124 @@ def TimedOut (c : Connection) (now : Nat) : Prop :=
 
 instance (c : Connection) (now : Nat) : Decidable (TimedOut c now) := by unfold TimedOut; infer_instance
 
-/-- `update_client` on a connected id, given room in the clock and the sequence number:
-    * timed out ⇒ the slot is freed and `ClientDisconnected` reported;
-    * otherwise the session stays; a keep-alive goes out when the send timer is due. -/
+theorem durAdd_out {ε} {x y : Nat} {site : String} {X : Res ε Nat} (h : (durAdd x y site : Res ε Nat) = X) :
+    X = .ok (x + y) ∨ (X = .panic site ∧ ¬ x + y ≤ DURATION_MAX) := by
+  unfold durAdd at h
+  split at h
+  · left; exact h.symm
+  · right; exact ⟨h.symm, by assumption⟩
+
+theorem incU64_out {ε} {x : Nat} {site : String} {X : Res ε Nat} (h : (incU64 x site : Res ε Nat) = X) :
+    X = .ok (x + 1) ∨ (X = .panic site ∧ ¬ x < U64_MAX) := by
+  unfold incU64 at h
+  split at h
+  · left; exact h.symm
+  · right; exact ⟨h.symm, by omega⟩
+
+/-- the part of `update_client` after the time-out test -/
+def ucTail (a : AEAD) (s : NetcodeServer) (clientId slot : Nat) (client : Connection) (timedOut : Bool) :
+    Res Empty (ServerResult × NetcodeServer) :=
+  let client := if timedOut then { client with state := .disconnected } else client
+  if client.state = .disconnected then
+    let s := { s with clients := s.clients.set slot none }
+    match Packet.disconnect.encode a C.NETCODE_MAX_PACKET_BYTES s.protocolId (some (client.sequence, client.sendKey)) with
+    | .panic m => .panic m
+    | .err _ => pure (.clientDisconnected clientId client.addr none, s)
+    | .ok out => pure (.clientDisconnected clientId client.addr (some out), s)
+  else do
+    let due ← durAdd client.lastPacketSendTime C.NETCODE_SEND_RATE_NS "server.rs update_client: last_packet_send_time + SEND_RATE"
+    if due ≤ s.currentTime then
+      let packet := Packet.keepAlive (slot % 2 ^ 32) (s.maxClients % 2 ^ 32)
+      match packet.encode a C.NETCODE_MAX_PACKET_BYTES s.protocolId (some (client.sequence, client.sendKey)) with
+      | .panic m => .panic m
+      | .err _ => pure (.none, s)
+      | .ok out =>
+        let sq ← incU64 client.sequence "server.rs update_client: client.sequence += 1"
+        let client := { client with sequence := sq, lastPacketSendTime := s.currentTime }
+        pure (.packetToSend client.addr out, { s with clients := s.clients.set slot (some client) })
+    else pure (.none, s)
+
+theorem updateClient_eq (a : AEAD) {s : NetcodeServer} {id i : Nat} {c : Connection}
+    (hf : findClientSlotById s.clients id = some i) (hc : At s.clients i c) :
+    s.updateClient a id =
+      ((if c.timeoutSeconds > 0 then do
+          let deadline ← durAdd c.lastPacketReceivedTime (fromSecs c.timeoutSeconds.toNat)
+                           "server.rs update_client: last_packet_received_time + timeout"
+          pure (decide (deadline < s.currentTime))
+        else pure false : Res Empty Bool) >>= ucTail a s id i c) := by
+  unfold NetcodeServer.updateClient
+  simp only [hf, getD_of_at hc]
+  rfl
+
+/-- the session after a keep-alive was sent -/
+abbrev sentKeepAlive (c : Connection) (now : Nat) : Connection :=
+  { c with sequence := c.sequence + 1, lastPacketSendTime := now }
+
+/-- The outcomes of `update_client` for a connected id (slot `i`, session `c`):
+    * timed out ⇒ the slot is freed and `ClientDisconnected` reported (with a Disconnect packet if it encodes);
+    * otherwise the session stays; a keep-alive goes out when the send timer is due;
+    * it unwinds only when the clock or the session's sequence number is about to overflow. -/
+def UCOut (a : AEAD) (s : NetcodeServer) (id i : Nat) (c : Connection) (R : Res Empty (ServerResult × NetcodeServer)) :
+    Prop :=
+  (TimedOut c s.currentTime ∧ ∃ o, R = .ok (.clientDisconnected id c.addr o, { s with clients := s.clients.set i none })) ∨
+  (¬ TimedOut c s.currentTime ∧
+    (R = .ok (.none, s) ∨
+     ∃ out, c.lastPacketSendTime + C.NETCODE_SEND_RATE_NS ≤ s.currentTime ∧
+       (Packet.keepAlive (i % 2 ^ 32) (s.maxClients % 2 ^ 32)).encode a C.NETCODE_MAX_PACKET_BYTES s.protocolId
+          (some (c.sequence, c.sendKey)) = .ok out ∧
+       R = .ok (.packetToSend c.addr out, { s with clients := s.clients.set i (some (sentKeepAlive c s.currentTime)) }))) ∨
+  ((∃ m, R = .panic m) ∧ ¬ (s.currentTime + fromSecs (2 ^ 31) ≤ DURATION_MAX ∧ c.sequence < U64_MAX))
+
+theorem ucTail_true (a : AEAD) (s : NetcodeServer) (id i : Nat) (c : Connection) :
+    ∃ o, ucTail a s id i c true = .ok (.clientDisconnected id c.addr o, { s with clients := s.clients.set i none }) := by
+  unfold ucTail
+  simp only [if_true]
+  cases he : Packet.disconnect.encode a C.NETCODE_MAX_PACKET_BYTES s.protocolId (some (c.sequence, c.sendKey)) with
+  | ok out => exact ⟨some out, rfl⟩
+  | err e => exact ⟨none, rfl⟩
+  | panic m => exact absurd he (encode_ne_panic _ _ _ _ _ _)
+
+theorem ucTail_false (a : AEAD) (s : NetcodeServer) (id i : Nat) {c : Connection} (hst : c.state = .connected)
+    (hsend : c.lastPacketSendTime ≤ s.currentTime) :
+    (ucTail a s id i c false = .ok (.none, s) ∨
+     ∃ out, c.lastPacketSendTime + C.NETCODE_SEND_RATE_NS ≤ s.currentTime ∧
+       (Packet.keepAlive (i % 2 ^ 32) (s.maxClients % 2 ^ 32)).encode a C.NETCODE_MAX_PACKET_BYTES s.protocolId
+          (some (c.sequence, c.sendKey)) = .ok out ∧
+       ucTail a s id i c false =
+         .ok (.packetToSend c.addr out, { s with clients := s.clients.set i (some (sentKeepAlive c s.currentTime)) })) ∨
+    ((∃ m, ucTail a s id i c false = .panic m) ∧
+      ¬ (s.currentTime + fromSecs (2 ^ 31) ≤ DURATION_MAX ∧ c.sequence < U64_MAX)) := by
+  have hsr : C.NETCODE_SEND_RATE_NS ≤ fromSecs (2 ^ 31) := by decide
+  have hnd : ¬ c.state = .disconnected := by rw [hst]; simp
+  unfold ucTail
+  simp only [Bool.false_eq_true, if_false]
+  rw [if_neg hnd]
+  generalize hd : (durAdd c.lastPacketSendTime C.NETCODE_SEND_RATE_NS _ : Res Empty Nat) = X
+  rcases durAdd_out hd with rfl | ⟨rfl, hn⟩
+  · simp only [bind_ok']
+    split
+    · rename_i hdue
+      cases he : (Packet.keepAlive (i % 2 ^ 32) (s.maxClients % 2 ^ 32)).encode a C.NETCODE_MAX_PACKET_BYTES
+          s.protocolId (some (c.sequence, c.sendKey)) with
+      | ok out =>
+        simp only
+        generalize hq : (incU64 c.sequence _ : Res Empty Nat) = Y
+        rcases incU64_out hq with rfl | ⟨rfl, hn⟩
+        · left; right
+          simp only [bind_ok', pure_eq']
+          exact ⟨out, hdue, rfl, rfl⟩
+        · right; exact ⟨⟨_, rfl⟩, fun h => hn h.2⟩
+      | err e => left; left; rfl
+      | panic m => exact absurd he (encode_ne_panic _ _ _ _ _ _)
+    · left; left; rfl
+  · right
+    refine ⟨⟨_, rfl⟩, fun h => hn ?_⟩
+    have := h.1
+    omega
+
 theorem updateClient_spec (a : AEAD) {s : NetcodeServer} {id i : Nat} {c : Connection} (hi : ServerInv s)
-    (hf : findClientSlotById s.clients id = some i) (hc : At s.clients i c)
-    (hclock : s.currentTime + fromSecs (2 ^ 31) ≤ DURATION_MAX) (hseq : c.sequence < U64_MAX) :
-    (TimedOut c s.currentTime ∧ ∃ o, s.updateClient a id =
-        .ok (.clientDisconnected id c.addr o, { s with clients := s.clients.set i none })) ∨
-    (¬ TimedOut c s.currentTime ∧
-      (s.updateClient a id = .ok (.none, s) ∨
-       ∃ out, c.lastPacketSendTime + C.NETCODE_SEND_RATE_NS ≤ s.currentTime ∧
-         (Packet.keepAlive (i % 2 ^ 32) (s.maxClients % 2 ^ 32)).encode a C.NETCODE_MAX_PACKET_BYTES s.protocolId
-            (some (c.sequence, c.sendKey)) = .ok out ∧
-         s.updateClient a id = .ok (.packetToSend c.addr out,
-          { s with clients :=
-              s.clients.set i (some { c with sequence := c.sequence + 1, lastPacketSendTime := s.currentTime }) }))) := by
+    (hf : findClientSlotById s.clients id = some i) (hc : At s.clients i c) :
+    UCOut a s id i c (s.updateClient a id) := by
   have hok := hi.slotsOK i c hc
   have hst := hi.slots.conn i c hc
   have hns : fromSecs c.timeoutSeconds.toNat ≤ fromSecs (2 ^ 31) := by
@@ -1457,68 +1559,51 @@ theorem updateClient_spec (a : AEAD) {s : NetcodeServer} {id i : Nat} {c : Conne
     apply Nat.mul_le_mul_right
     have := hok.tmo
     omega
-  have hsr : C.NETCODE_SEND_RATE_NS ≤ fromSecs (2 ^ 31) := by decide
   have h1 := hok.recv
-  have h2 := hok.send
-  unfold NetcodeServer.updateClient
-  simp only [hf, getD_of_at hc]
-  by_cases hto : TimedOut c s.currentTime
-  · left
-    refine ⟨hto, ?_⟩
-    obtain ⟨ht1, ht2⟩ := hto
-    rw [if_pos ht1, durAdd_ok _ (by omega)]
-    simp only [bind_ok', pure_eq', decide_eq_true ht2, if_true]
-    cases he : Packet.disconnect.encode a C.NETCODE_MAX_PACKET_BYTES s.protocolId (some (c.sequence, c.sendKey)) with
-    | ok out => exact ⟨some out, rfl⟩
-    | err e => exact ⟨none, rfl⟩
-    | panic m => exact absurd he (encode_ne_panic _ _ _ _ _ _)
-  · right
-    refine ⟨hto, ?_⟩
-    have hfalse : (if c.timeoutSeconds > 0 then do
-          let deadline ← (durAdd c.lastPacketReceivedTime (fromSecs c.timeoutSeconds.toNat)
-                           "server.rs update_client: last_packet_received_time + timeout" : Res Empty Nat)
-          pure (decide (deadline < s.currentTime))
-        else pure false : Res Empty Bool) = .ok false := by
-      by_cases ht1 : c.timeoutSeconds > 0
-      · rw [if_pos ht1, durAdd_ok _ (by omega)]
-        simp only [bind_ok', pure_eq', Res.ok.injEq, decide_eq_false_iff_not]
-        intro ht2; exact hto ⟨ht1, ht2⟩
-      · rw [if_neg ht1]; rfl
-    rw [hfalse]
-    simp only [bind_ok', Bool.false_eq_true, if_false, hst, reduceCtorEq]
-    rw [durAdd_ok _ (by omega)]
-    simp only [bind_ok']
-    split
-    · rename_i hdue
-      cases he : (Packet.keepAlive (i % 2 ^ 32) (s.maxClients % 2 ^ 32)).encode a C.NETCODE_MAX_PACKET_BYTES
-          s.protocolId (some (c.sequence, c.sendKey)) with
-      | ok out =>
-        right
-        simp only [incU64_ok _ hseq, bind_ok', pure_eq']
-        exact ⟨out, hdue, rfl, rfl⟩
-      | err e => left; rfl
-      | panic m => exact absurd he (encode_ne_panic _ _ _ _ _ _)
-    · left; rfl
+  rw [updateClient_eq a hf hc]
+  unfold UCOut
+  by_cases ht1 : c.timeoutSeconds > 0
+  · rw [if_pos ht1]
+    generalize hd : (durAdd c.lastPacketReceivedTime (fromSecs c.timeoutSeconds.toNat) _ : Res Empty Nat) = X
+    rcases durAdd_out hd with rfl | ⟨rfl, hn⟩
+    · simp only [bind_ok', pure_eq']
+      by_cases ht2 : c.lastPacketReceivedTime + fromSecs c.timeoutSeconds.toNat < s.currentTime
+      · left
+        rw [decide_eq_true ht2]
+        exact ⟨⟨ht1, ht2⟩, ucTail_true a s id i c⟩
+      · right
+        rw [decide_eq_false ht2]
+        rcases ucTail_false a s id i hst hok.send with h | h
+        · exact Or.inl ⟨fun h' => ht2 h'.2, h⟩
+        · exact Or.inr h
+    · right; right
+      refine ⟨⟨_, rfl⟩, fun h => hn ?_⟩
+      have := h.1
+      omega
+  · rw [if_neg ht1]
+    simp only [pure_eq', bind_ok']
+    right
+    rcases ucTail_false a s id i hst hok.send with h | h
+    · exact Or.inl ⟨fun h' => ht1 h'.1, h⟩
+    · exact Or.inr h
 
 theorem updateClient_absent (a : AEAD) {s : NetcodeServer} {id : Nat} (hf : findClientSlotById s.clients id = none) :
     s.updateClient a id = .ok (.none, s) := by
   unfold NetcodeServer.updateClient; rw [hf]
 
-theorem connOK_now {now : Nat} {c : Connection} (h : ConnOK now c) :
-    ConnOK now { c with lastPacketSendTime := now } := ⟨h.recv, Nat.le_refl _, h.tmo⟩
-
 theorem updateClient_inv {a : AEAD} {s s' : NetcodeServer} {id : Nat} {r : ServerResult} (h : ServerInv s)
-    (hh : Headroom s) (hu : s.updateClient a id = .ok (r, s')) : ServerInv s' := by
+    (hu : s.updateClient a id = .ok (r, s')) : ServerInv s' := by
   cases hf : findClientSlotById s.clients id with
   | none => rw [updateClient_absent a hf] at hu; cases hu; exact h
   | some i =>
     obtain ⟨c, hc, _, _⟩ := findSlot_some hf
-    rcases updateClient_spec a h hf hc hh.clock (hh.seqs i c hc) with ⟨_, o, e⟩ | ⟨_, e | ⟨out, _, _, e⟩⟩
+    rcases updateClient_spec a h hf hc with ⟨_, o, e⟩ | ⟨_, e | ⟨out, _, _, e⟩⟩ | ⟨⟨m, e⟩, _⟩
     · rw [e] at hu; cases hu; exact h.dropSlot i
     · rw [e] at hu; cases hu; exact h
     · rw [e] at hu; cases hu
       exact h.refreshSlot hc rfl (h.slots.conn i c hc)
         ⟨(h.slotsOK i c hc).recv, Nat.le_refl _, (h.slotsOK i c hc).tmo⟩
+    · rw [e] at hu; cases hu
 
 theorem updateClient_ne_panic (a : AEAD) {s : NetcodeServer} (id : Nat) (h : ServerInv s) (hh : Headroom s) :
     ∃ r s', s.updateClient a id = .ok (r, s') := by
@@ -1526,10 +1611,11 @@ theorem updateClient_ne_panic (a : AEAD) {s : NetcodeServer} (id : Nat) (h : Ser
   | none => exact ⟨_, _, updateClient_absent a hf⟩
   | some i =>
     obtain ⟨c, hc, _, _⟩ := findSlot_some hf
-    rcases updateClient_spec a h hf hc hh.clock (hh.seqs i c hc) with ⟨_, o, e⟩ | ⟨_, e | ⟨out, _, _, e⟩⟩
+    rcases updateClient_spec a h hf hc with ⟨_, o, e⟩ | ⟨_, e | ⟨out, _, _, e⟩⟩ | ⟨_, hn⟩
     · exact ⟨_, _, e⟩
     · exact ⟨_, _, e⟩
     · exact ⟨_, _, e⟩
+    · exact absurd ⟨hh.clock, hh.seqs i c hc⟩ hn
 
 /-- `generate_payload_packet`: the packet goes to the address of the slot holding that id, sealed with that slot's
     send key and sequence number; only that slot's sequence number and send timer change -/
@@ -1585,223 +1671,6 @@ theorem generatePayload_ne_panic (a : AEAD) {s : NetcodeServer} (id : Nat) (payl
       refine bind_ne_panic (encode_ne_panic _ _ _ _ _ _) fun o => ?_
       rw [incU64_ok _ (hh.seqs i c hc)]
       simp
-
-/-! ## Part 3 : `process_packet` -/
-
-/-- the MAC of a private connect token: its last 16 bytes -/
-def tokenMac (data : Bytes) : Bytes := data.drop (C.NETCODE_CONNECT_TOKEN_PRIVATE_BYTES - C.NETCODE_MAC_BYTES)
-
-/-- the half-open session `handle_connection_request` stores for a token `t` presented from `addr` -/
-def mkPending (now : Nat) (addr : Addr) (expire : Nat) (t : PrivateConnectToken) : Connection :=
-  { confirmed := false, sequence := 0, clientId := t.clientId
-    lastPacketReceivedTime := now, lastPacketSendTime := now, addr
-    state := .pendingResponse, sendKey := t.serverToClientKey
-    receiveKey := t.clientToServerKey, timeoutSeconds := t.timeoutSeconds
-    expireTimestamp := expire, userData := t.userData, replayProtection := RP.new }
-
-/-- the private token opens under the server's key (AAD = version ‖ protocol id ‖ expiry) to the token `t` -/
-def TokenOpens (a : AEAD) (s : NetcodeServer) (expire : Nat) (xnonce data : Bytes) (t : PrivateConnectToken) : Prop :=
-  ∃ plain, a.xopen s.connectKey xnonce (PrivateConnectToken.additionalData s.protocolId expire) data = some plain ∧
-    PrivateConnectToken.read (plain ++ data.drop plain.length) = some t
-
-/-- Every check a connection request (fields `v pid expire xnonce data`, source `addr`) passes before the server
-    answers it with a challenge or a denial. -/
-structure Accepted (a : AEAD) (s : NetcodeServer) (addr : Addr) (v : Bytes) (pid expire : Nat) (xnonce data : Bytes)
-    (t : PrivateConnectToken) : Prop where
-  version : v = C.NETCODE_VERSION_INFO
-  protocol : pid = s.protocolId
-  unexpired : asSecs s.currentTime < expire
-  opens : TokenOpens a s expire xnonce data t
-  host : s.secure = true → ∃ x, some x ∈ t.serverAddresses ∧ x ∈ s.publicAddresses
-  addrFree : findClientByAddr s.clients addr = none
-  idFree : findClientById s.clients t.clientId = none
-  room : (pendingFind s.pendingClients addr).isSome ∨ s.pendingClients.length < C.NETCODE_MAX_PENDING_CLIENTS
-  /-- the token-to-address binding: no entry of the table carries this token's MAC with another address -/
-  binding : (s.findOrAddConnectTokenEntry ⟨s.currentTime, addr, tokenMac data⟩).2 = true
-
-/-- the token-entry table after an accepted request: untouched, or the new entry written where no entry had its MAC -/
-def EntryStep (s s1 : NetcodeServer) (ne : ConnectTokenEntry) : Prop :=
-  s1 = s ∨ ((∀ e, some e ∈ s.connectTokenEntries → e.mac ≠ ne.mac) ∧
-            ∃ k, s1 = { s with connectTokenEntries := s.connectTokenEntries.set k (some ne) })
-
-/-- the possible outcomes of `handle_connection_request` -/
-inductive HcrOut (a : AEAD) (s : NetcodeServer) (addr : Addr) (v : Bytes) (pid expire : Nat) (xnonce data : Bytes) :
-    NetcodeServer.SRes → Prop
-  /-- a check failed: nothing changes -/
-  | err (e : NetcodeError) : HcrOut a s addr v pid expire xnonce data (.err (e, s))
-  /-- already connected / pending map full / token bound to another address: nothing changes -/
-  | none : HcrOut a s addr v pid expire xnonce data (.ok (.none, s))
-  | deniedErr (t : PrivateConnectToken) (s1 : NetcodeServer) (e : NetcodeError) :
-      Accepted a s addr v pid expire xnonce data t → EntryStep s s1 ⟨s.currentTime, addr, tokenMac data⟩ →
-      countConnected s.clients ≥ s.maxClients →
-      HcrOut a s addr v pid expire xnonce data
-        (.err (e, { s1 with pendingClients := pendingRemove s1.pendingClients addr }))
-  /-- the server is full: the half-open session of this address (if any) is dropped, `ConnectionDenied` goes out -/
-  | denied (t : PrivateConnectToken) (s1 : NetcodeServer) (out : Bytes) :
-      Accepted a s addr v pid expire xnonce data t → EntryStep s s1 ⟨s.currentTime, addr, tokenMac data⟩ →
-      countConnected s.clients ≥ s.maxClients →
-      Packet.connectionDenied.encode a C.NETCODE_MAX_PACKET_BYTES s.protocolId
-        (some (s.globalSequence, t.serverToClientKey)) = .ok out →
-      HcrOut a s addr v pid expire xnonce data
-        (.ok (.packetToSend addr out, { s1 with pendingClients := pendingRemove s1.pendingClients addr
-                                                globalSequence := s.globalSequence + 1 }))
-  | challengeErr (t : PrivateConnectToken) (s1 : NetcodeServer) (e : NetcodeError) :
-      Accepted a s addr v pid expire xnonce data t → EntryStep s s1 ⟨s.currentTime, addr, tokenMac data⟩ →
-      countConnected s.clients < s.maxClients →
-      HcrOut a s addr v pid expire xnonce data
-        (.err (e, { s1 with challengeSequence := s.challengeSequence + 1 }))
-  /-- a challenge goes out and the half-open session of this address is (re)created from the token -/
-  | challenge (t : PrivateConnectToken) (s1 : NetcodeServer) (pkt : Packet) (out : Bytes) :
-      Accepted a s addr v pid expire xnonce data t → EntryStep s s1 ⟨s.currentTime, addr, tokenMac data⟩ →
-      countConnected s.clients < s.maxClients →
-      ChallengeToken.generate a t.clientId t.userData (s.challengeSequence + 1) s.challengeKey = .ok pkt →
-      pkt.encode a C.NETCODE_MAX_PACKET_BYTES s.protocolId (some (s.globalSequence, t.serverToClientKey)) = .ok out →
-      HcrOut a s addr v pid expire xnonce data
-        (.ok (.packetToSend addr out,
-              { s1 with challengeSequence := s.challengeSequence + 1, globalSequence := s.globalSequence + 1
-                        pendingClients := pendingSet s1.pendingClients addr (mkPending s.currentTime addr expire t) }))
-
-theorem lift_ok {α} (s : NetcodeServer) (x : α) : NetcodeServer.lift s (.ok x : NRes α) = .ok x := rfl
-theorem lift_err {α} (s : NetcodeServer) (e : NetcodeError) : NetcodeServer.lift s (.err e : NRes α) = .err (e, s) := rfl
-
-theorem generate_ne_panic (a : AEAD) (id : Nat) (ud : Bytes) (cs : Nat) (k : Bytes) (m : String) :
-    ChallengeToken.generate a id ud cs k ≠ .panic m := by
-  unfold ChallengeToken.generate
-  refine bind_ne_panic (io?_ne_panic _ _) fun w => bind_ne_panic (io?_ne_panic _ _) fun w' => by simp
-
-theorem entryStep_fields {s s1 : NetcodeServer} {ne : ConnectTokenEntry} (h : EntryStep s s1 ne) :
-    s1.clients = s.clients ∧ s1.pendingClients = s.pendingClients ∧ s1.protocolId = s.protocolId ∧
-    s1.connectKey = s.connectKey ∧ s1.maxClients = s.maxClients ∧ s1.challengeSequence = s.challengeSequence ∧
-    s1.challengeKey = s.challengeKey ∧ s1.publicAddresses = s.publicAddresses ∧ s1.currentTime = s.currentTime ∧
-    s1.globalSequence = s.globalSequence ∧ s1.secure = s.secure := by
-  rcases h with rfl | ⟨_, k, rfl⟩ <;> simp
-
-/-- `handle_connection_request`, symbolically executed.  Needs: the token blob is long enough to carry a MAC (true of
-    every decoded request: 1024 bytes) and the two counters have room. -/
-theorem hcr_spec (a : AEAD) (s : NetcodeServer) (addr : Addr) (v : Bytes) (pid expire : Nat) (xnonce data : Bytes)
-    (hd : C.NETCODE_MAC_BYTES ≤ data.length) (hg : s.globalSequence < U64_MAX) (hc : s.challengeSequence < U64_MAX) :
-    HcrOut a s addr v pid expire xnonce data
-      (NetcodeServer.handleConnectionRequest a s addr v pid expire xnonce data) := by
-  unfold NetcodeServer.handleConnectionRequest
-  split
-  · exact .err _
-  rename_i hv
-  split
-  · exact .err _
-  rename_i hp
-  split
-  · exact .err _
-  rename_i hx
-  unfold PrivateConnectToken.decode
-  rw [if_neg (by omega)]
-  cases hxo : a.xopen s.connectKey xnonce (PrivateConnectToken.additionalData s.protocolId expire) data with
-  | none => exact .err _
-  | some plain =>
-    simp only
-    cases hrd : PrivateConnectToken.read (plain ++ data.drop plain.length) with
-    | none => exact .err _
-    | some t =>
-      simp only
-      split
-      · exact .err _
-      rename_i hhost
-      split
-      · exact .none
-      rename_i hfree
-      split
-      · exact .none
-      rename_i hroom
-      have hacc : (s.findOrAddConnectTokenEntry ⟨s.currentTime, addr, tokenMac data⟩).2 = true →
-          Accepted a s addr v pid expire xnonce data t := by
-        intro hb
-        refine ⟨by simpa using hv, by simpa using hp, by omega, ⟨plain, hxo, hrd⟩, ?_, ?_, ?_, ?_, hb⟩
-        · intro hs
-          simp only [hs, true_and, Bool.not_eq_true', Bool.not_eq_false] at hhost
-          rw [List.any_eq_true] at hhost
-          obtain ⟨h, hh, hc⟩ := hhost
-          cases h with
-          | none => simp at hc
-          | some x => exact ⟨x, hh, by simpa using hc⟩
-        · cases h : findClientByAddr s.clients addr with
-          | none => rfl
-          | some p => simp [h] at hfree
-        · cases h : findClientById s.clients t.clientId with
-          | none => rfl
-          | some p => simp [h] at hfree
-        · cases h : pendingFind s.pendingClients addr with
-          | some p => left; rfl
-          | none =>
-            right
-            simp only [h, Option.isNone_none, true_and] at hroom
-            omega
-      rcases findOrAdd_spec s ⟨s.currentTime, addr, tokenMac data⟩ with ⟨e, he, hm, heq⟩ | ⟨hn, k, heq⟩
-      · -- an entry with this MAC exists
-        show HcrOut a s addr v pid expire xnonce data
-          (match s.findOrAddConnectTokenEntry ⟨s.currentTime, addr, tokenMac data⟩ with
-           | (s, added) => _)
-        by_cases hadr : e.address = addr
-        · have hacc := hacc (by rw [heq]; simp [hadr])
-          rw [heq]
-          simp only [hadr, decide_true, Bool.not_true, Bool.false_eq_true, if_false]
-          split
-          · rename_i hfull
-            cases hen : Packet.connectionDenied.encode a C.NETCODE_MAX_PACKET_BYTES s.protocolId
-                (some (s.globalSequence, t.serverToClientKey)) with
-            | panic m => exact absurd hen (encode_ne_panic _ _ _ _ _ _)
-            | err e' => exact .deniedErr t s e' hacc (Or.inl rfl) hfull
-            | ok out =>
-              simp only [lift_ok, bind_ok', incU64_ok _ hg, pure_eq']
-              exact .denied t s out hacc (Or.inl rfl) hfull hen
-          · rename_i hfull
-            simp only [incU64_ok _ hc, bind_ok']
-            cases hgen : ChallengeToken.generate a t.clientId t.userData (s.challengeSequence + 1) s.challengeKey with
-            | panic m => exact absurd hgen (generate_ne_panic _ _ _ _ _ _)
-            | err e' => exact .challengeErr t s e' hacc (Or.inl rfl) (by omega)
-            | ok pkt =>
-              simp only [lift_ok, bind_ok']
-              cases hen : pkt.encode a C.NETCODE_MAX_PACKET_BYTES s.protocolId
-                  (some (s.globalSequence, t.serverToClientKey)) with
-              | panic m => exact absurd hen (encode_ne_panic _ _ _ _ _ _)
-              | err e' => exact .challengeErr t s e' hacc (Or.inl rfl) (by omega)
-              | ok out =>
-                simp only [lift_ok, bind_ok', incU64_ok _ hg, pure_eq']
-                exact .challenge t s pkt out hacc (Or.inl rfl) (by omega) hgen hen
-        · rw [heq]
-          simp only [hadr, decide_false, Bool.not_false, if_true]
-          exact .none
-      · -- no entry with this MAC: it is recorded
-        show HcrOut a s addr v pid expire xnonce data
-          (match s.findOrAddConnectTokenEntry ⟨s.currentTime, addr, tokenMac data⟩ with
-           | (s, added) => _)
-        have hacc := hacc (by rw [heq])
-        have hstep : EntryStep s { s with connectTokenEntries := s.connectTokenEntries.set k
-            (some ⟨s.currentTime, addr, tokenMac data⟩) } ⟨s.currentTime, addr, tokenMac data⟩ :=
-          Or.inr ⟨hn, k, rfl⟩
-        rw [heq]
-        simp only [Bool.not_true, Bool.false_eq_true, if_false]
-        split
-        · rename_i hfull
-          cases hen : Packet.connectionDenied.encode a C.NETCODE_MAX_PACKET_BYTES s.protocolId
-              (some (s.globalSequence, t.serverToClientKey)) with
-          | panic m => exact absurd hen (encode_ne_panic _ _ _ _ _ _)
-          | err e' => exact .deniedErr t _ e' hacc hstep hfull
-          | ok out =>
-            simp only [lift_ok, bind_ok', incU64_ok _ hg, pure_eq']
-            exact .denied t _ out hacc hstep hfull hen
-        · rename_i hfull
-          simp only [incU64_ok _ hc, bind_ok']
-          cases hgen : ChallengeToken.generate a t.clientId t.userData (s.challengeSequence + 1) s.challengeKey with
-          | panic m => exact absurd hgen (generate_ne_panic _ _ _ _ _ _)
-          | err e' => exact .challengeErr t _ e' hacc hstep (by omega)
-          | ok pkt =>
-            simp only [lift_ok, bind_ok']
-            cases hen : pkt.encode a C.NETCODE_MAX_PACKET_BYTES s.protocolId
-                (some (s.globalSequence, t.serverToClientKey)) with
-            | panic m => exact absurd hen (encode_ne_panic _ _ _ _ _ _)
-            | err e' => exact .challengeErr t _ e' hacc hstep (by omega)
-            | ok out =>
-              simp only [lift_ok, bind_ok', incU64_ok _ hg, pure_eq']
-              exact .challenge t _ pkt out hacc hstep (by omega) hgen hen
 
 end NS
 end RenetVerif.Netcode
